@@ -175,7 +175,8 @@ def genRoutes (sp : PathOracle) (d : Desc) (c : Compiled) : D (List (NI × List 
       let r ← routeOf sp d c src dst
       pure (dst.id, r)
     pure (src, routes)
-  pure (out, (out.flatMap fun (_, routes) => routes.map fun (_, r) => routeBits r).foldl max 0)
+  -- `route_t` is at least one bit wide, also when no endpoint has anybody to send to
+  pure (out, (out.flatMap fun (_, routes) => routes.map fun (_, r) => routeBits r).foldl max 1)
 
 structure SamRule where
   dest : IdVal
